@@ -23,9 +23,31 @@ def usable(rec):
     return d['valid'] and rec['dom'] and all(q[1] != 0 for q in (d['result'], d['err'], d['epsc']))
 
 
+def first_call_float32(_):
+    """in a process that has not used the library yet: a float32 call first, then float64 geometric triples with small
+    transients - what an earlier call looked like must not change the machine constants a later call works with"""
+    vlib.use_repo()
+    from numdifftools.extrapolation import dea3
+    out = []
+    with np.errstate(all='ignore'):
+        dea3(np.array([1.0, 1.5, 1.75], dtype=np.float32), np.array([1.5, 1.75, 1.875], dtype=np.float32), np.array([1.75, 1.875, 1.9375], dtype=np.float32))
+        for L, a, q in ((1.0, 1e-8, 0.5), (-3.0, 2e-9, -0.25), (1.0, 1e-3, 0.5), (2.0, 5e-11, 0.75)):
+            e = [np.float64(L + a * q ** k) for k in range(3)]
+            r, err = dea3(*e)
+            out.append((L, a, q, float(r[0]), float(err[0])))
+    return out
+
+
 def run(tier, rep):
     seed = vlib.seed_from_env()
     from numdifftools.extrapolation import dea3
+    for L, a, q, r, err in vlib.pool_map(first_call_float32, [0], chunksize=1)[0]:
+        # conditioning of the three-term formula for a geometric triple: 1/(1-q)^2 on differences of size a
+        tol = 64 * EPS * abs(L) * max(1.0, 2.0 / (1 - q) ** 2) + 1e-300
+        if not abs(r - L) <= tol + err:
+            rep.violation('history:float32-first', dict(L=L, a=a, q=q, got=r, abserr=err),
+                          'after a float32 call earlier in the process dea3 returns %r for L=%r, a=%r, q=%r (error %.3g, reported %.3g)' % (r, L, a, q, abs(r - L), err))
+    held = []
     res = vlib.tlc('MC_Dea3', cfg='MC_Dea3.cfg')
     if res.violated:
         raise vlib.MachineryError('MC_Dea3 violates %s\n%s' % (res.violated, res.out[-1500:]))
@@ -57,6 +79,8 @@ def run(tier, rep):
                 rep.violation('raises', dict(e=e, scale=c), 'dea3 raised %r on %r (warnings treated as errors)' % (ex, keep))
                 continue
             nscalar += 1
+            if len(held) < 3000:
+                held.append((got, gerr, np.array(got, copy=True), np.array(gerr, copy=True)))      # results are values: kept ones never change
             if [float(v) for v in a] != keep:
                 rep.violation('inputs-modified', dict(e=e, scale=c), 'dea3 modified its inputs')
             want, werr = expected(r, c)
@@ -84,6 +108,19 @@ def run(tier, rep):
                 if abs(g - Lc) > ge + tol:
                     rep.violation('dishonest', dict(e=r['e'], scale=c, got=g, L=Lc, abserr=ge),
                                   'dea3(%r): |result - L| = %r exceeds the reported error %r' % (keep, abs(g - Lc), ge))
+    for got, gerr, g0, e0 in held:
+        if not (np.array_equal(got, g0, equal_nan=True) and np.array_equal(gerr, e0, equal_nan=True)):
+            rep.violation('result-overwritten', dict(returned=[g0.tolist(), e0.tolist()], now=[np.asarray(got).tolist(), np.asarray(gerr).tolist()]),
+                          'a result returned by dea3 (%s, %s) was changed by later calls: it now reads (%s, %s)' % (g0.tolist(), e0.tolist(), np.asarray(got).tolist(), np.asarray(gerr).tolist()))
+            break
+    # iterated use: kept results of three calls are the inputs of a fourth
+    try:
+        rs = [dea3(np.float64(2.0 + 0.5 ** k), np.float64(2.0 + 0.5 ** (k + 1)), np.float64(2.0 + 0.5 ** (k + 2)))[0] for k in range(3)]
+        r4, e4 = dea3(rs[0], rs[1], rs[2])
+        if not (np.isfinite(r4).all() and abs(float(r4[0]) - 2.0) <= 1e-9):
+            rep.violation('iterated', dict(inputs=[float(v[0]) for v in rs], got=float(r4[0])), 'dea3 applied to three of its own earlier results %s returns %r (limit 2)' % ([float(v[0]) for v in rs], float(r4[0])))
+    except Exception as ex:
+        rep.violation('raises', dict(), 'iterated dea3 raised %r' % (ex,))
     # arrays: all cases at once, each with its own power-of-two scale, several shapes, symmetric flag
     rnd = random.Random(seed)
     narr = 0
